@@ -73,7 +73,7 @@ CLAIMED["C04"] = dict(
         "objective/constraints/gradients/index are those recorded for that point."
     ),
     note=(
-        "Pareto/multi-objective clause not decided (pure function of a finished history, no simulated dimension). LP/MILP wrappers excluded from the selection "
+        "Pareto/multi-objective clause decided on the histories of sequential CustomDOE runs under raising/NaN-returning functions (reported points recorded, feasible and not dominated; completeness of the front not demanded). LP/MILP wrappers excluded from the selection "
         "oracle (they report the solver's own solution by design). Histories are produced by runs, not enumerated: shapes that no driver run produces are not reached."
     ),
 )
